@@ -1,5 +1,7 @@
 import A2Verif.Model.Hex
 import A2Verif.Model.Fs.Fat
+import A2Verif.Model.Fs.FatReadT
+import A2Verif.Drv.Fs
 /-!
 Driver family `fsf` (stateful): the byte-exact tie of the concrete FAT model (`Model/Fs/Fat.lean`).
 
@@ -20,6 +22,7 @@ disagreement the model state is re-synchronised with the mirror so that one defe
   fsf mkdir <path> <tenths> <time> <date> <real>                → ok | bad …
   fsf get <path>                                                → ok <ext> <attr> <eof> <nchunks> <adler> | err:<class>
   fsf free                                                      → ok <n> | err:<class>
+  fsf readt                                                     → the answer of `fs read`, computed by the total reader `Read.FatT.readT`
   fsf cat <path>                                                → ok <type>:<blocks>:<name>,… | err:<class>
 
 `<real>` is `ok` or `err:<class>` with the classes of `Err.token`.  Paths, names, labels, times are hex.
@@ -223,6 +226,11 @@ def handle (mirror : Raw) (st : St) (toks : List String) : St × String :=
     | some path => query st (get path) (fun g => s!"{Hex.toHex g.ext} {g.attr} {g.eof} {g.chunks.length} {adler (g.chunks.map (·.2))}")
     | none => (st, "bad-request")
   | ["free"] => query st statFree (fun n => s!"{n}")
+  | ["readt"] =>
+    -- the total reader `readT` (the one the theorems are about) on the mirrored real image, rendered like `fs read`
+    match Read.FatT.readT mirror with
+    | .ok v => (st, Drv.Fs.summary v)
+    | .error e => (st, s!"bad {e}")
   | ["cat", path] =>
     match Hex.ofHex path with
     | some path => query st (catalog path) (fun rows =>
